@@ -3,7 +3,7 @@ SPEC = dict(
     title='With parallel initialisation disabled, fans are analysed one at a time',
     props_file='Props/C16.v', props_mod='Props.C16',
     proof_files=['Proofs/Sched.v', 'Drv/ParInit.v'],
-    tie_vo=[],
+    tie_vo=['Proofs/LeafTie2_applyPwmMapping.vo'],
     extra_driver_files=['startup'],      # the fake-fan environment lives in drv_startup.go
     drivers=[dict(name='parinit', drv_mod='Drv.ParInit', drv_file='Drv/ParInit.v', shard=40,
                   args={'quick': ['n=24'], 'thorough': ['n=300']}, timeout={'quick': 600, 'thorough': 3000})],
